@@ -3209,6 +3209,110 @@ def run_delimiters(prop, tier, seed):
     return ev
 
 
+# ---------------------------------------------------------------------------------------------
+# forward slices (C09): in every arm of ops::slice (string, bytes, tuple, list / lazy iterable) the window
+# [start, start + len) - computed by get_offset_and_len, which Kani checks against CPython - is cut FIRST and the
+# stride applied to it: each step_by is applied to Take<Skip<..>>, never the other way round
+# ---------------------------------------------------------------------------------------------
+def check_slice_window_then_stride(mir):
+    sites = []
+    for m in re.finditer(r'^fn ((?:value::)?ops::slice(?:::\{closure#\d+\})?)\(', mir, re.M):
+        text = mir[m.start():mir.index('\n}\n', m.start()) + 2]
+        fn = parse_function(text)
+        for bid, blk in fn['blocks'].items():
+            if blk['cleanup']:
+                continue
+            _, callee = call_of(blk['term'])
+            x = callee and re.match(r'<(.*)> as Iterator>::(step_by|take|skip)\(', callee.replace('<', '<', 1)[0:0] + callee) if callee else None
+            x = callee and re.match(r'<(.+) as Iterator>::(step_by|take|skip)\(', callee)
+            if x:
+                sites.append(dict(function=m.group(1), block=bid, adaptor=x.group(2), receiver=x.group(1)[:90]))
+    s_ = z3.Solver()
+    bad = []
+    n_step = 0
+    for st in sites:
+        rcv = st['receiver']
+        if st['adaptor'] == 'step_by':
+            n_step += 1
+            if not re.match(r'(?:std::iter::)?Take<(?:std::iter::)?Skip<', rcv):
+                bad.append(st)
+        if st['adaptor'] in ('take', 'skip') and re.match(r'(?:std::iter::)?StepBy<', rcv):
+            bad.append(st)
+    nb, ns = z3.Ints('misordered_adaptors stride_sites')
+    s_.add(nb == len(bad), ns == n_step, z3.Or(nb != 0, ns < 4))
+    t0 = time.time()
+    r = s_.check()
+    res = dict(function='ops::slice (all arms)', stride_sites=n_step, adaptor_calls=len(sites), z3_s=round(time.time() - t0, 3))
+    if r == z3.unsat:
+        res.update(verdict='sat')
+    else:
+        res.update(verdict='unsat', conflict=('an arm of ops::slice applies the stride before the window is cut: %s on %s in %s' % (bad[0]['adaptor'], bad[0]['receiver'], bad[0]['function'])) if bad
+                   else 'fewer than four arms of ops::slice slice with skip/take/step_by (%d found)' % n_step)
+    return res
+
+
+def run_slice_arms(prop, tier, seed):
+    t0 = time.time()
+    ev = dict(engine='M', violations=[], known_hits=[], problems=[], coverage={})
+    try:
+        mir = dump_mir(REPO, os.path.join(BUILD, 'mir'))
+    except MirError as e:
+        ev['problems'].append('engine M: %s' % e)
+        return ev
+    res = check_slice_window_then_stride(mir)
+    err = build_tool('render')
+    if err:
+        ev['problems'].append('engine M: render tool did not build')
+        return ev
+    items = list(range(6))
+    bounds = [None, -7, -6, -2, -1, 0, 1, 3, 5, 6, 7]
+    reqs, wants = [], []
+    for kind, expr, conv in (('list', 'l', lambda x: x), ('lazy iterable', '(l|reverse|reverse)', lambda x: x), ('tuple', 't', lambda x: x), ('string', 's', None)):
+        for step in (1, 2, 3):
+            parts, want = [], []
+            for a in bounds:
+                for b in bounds:
+                    sl = '%s:%s:%d' % ('' if a is None else a, '' if b is None else b, step)
+                    parts.append('{{ %s[%s]|%s }}' % (expr, sl, 'join(",")' if conv else 'string'))
+                    py = items[slice(a, b, step)]
+                    want.append(','.join(map(str, py)) if conv else ''.join(map(str, py)))
+            reqs.append(dict(src='|'.join(parts), ctx=dict(l=items, t=items, s='012345')))
+            wants.append((kind, step, '|'.join(want)))
+    # every spelling of an omitted bound or step (a trailing colon with nothing behind it included)
+    reqs.append(dict(src='{{ l[::]|join }}|{{ l[1::]|join }}|{{ l[:2:]|join }}|{{ l[1:2:]|join }}|{{ l[:]|join }}|{{ l[1:]|join }}|{{ l[:2]|join }}|{{ s[::] }}|{{ s[::2] }}', ctx=dict(l=items, s='012345')))
+    wants.append(('omitted-step spellings', 1, '012345|12345|01|1|012345|12345|01|012345|024'))
+    # tuples: a context list is a list; build a real tuple in the template instead
+    for q in reqs:
+        q['src'] = q['src'].replace('{{ t[', '{{ (0, 1, 2, 3, 4, 5)[')
+    inp = '\n'.join(json.dumps(q) for q in reqs) + '\n'
+    p = subprocess.run([os.path.join(BUILD, 'native', 'debug', 'render')], input=inp, stdout=subprocess.PIPE, stderr=subprocess.PIPE, text=True, timeout=120)
+    outs = [json.loads(l) for l in p.stdout.split('\n') if l.strip()]
+    bad = []
+    for (kind, step, want), o, q in zip(wants, outs, reqs):
+        got = o.get('ok')
+        if got != want:
+            first = next((i for i, (g, w) in enumerate(zip((got or '').split('|'), want.split('|'))) if g != w), None)
+            part = q['src'].split('|{{')[first] if first is not None else q['src'][:60]
+            bad.append('%s, step %d: %s renders %r, CPython gives %r' % (kind, step, ('{{' + part) if first else part,
+                                                                           (got or str(o)).split('|')[first] if first is not None and got else str(o)[:80], want.split('|')[first] if first is not None else ''))
+    if res['verdict'] == 'unsat':
+        if bad:
+            rp = os.path.join(nativelib.replay_dir(), '%s-M-slice-arms.json' % prop)
+            json.dump(dict(engine='M', kind='safesrc', property=prop, mir_finding=res, requests=[[q, w[2]] for q, w in zip(reqs, wants)],
+                           how='bin/check %s --replay %s' % (prop, rp)), open(rp, 'w'), indent=1)
+            ev['violations'].append(dict(replay=rp, failed=[dict(desc='%s; natively: %s' % (res['conflict'], bad[0][:220]), loc='minijinja/src/value/ops.rs slice (MIR)')]))
+        else:
+            ev['problems'].append('engine M: %s, but every slice of the native grid equals CPython\'s' % res['conflict'])
+    elif res['verdict'] != 'sat':
+        ev['problems'].append('engine M: slice arms: %s %s' % (res['verdict'], res.get('conflict') or ''))
+    elif bad:
+        ev['problems'].append('engine M: slices differ from CPython natively (%s) although every arm cuts the window before it strides' % bad[0][:220])
+    log('[%s] engine M (slice arms: window, then stride): %s (%d stride sites); native: %d x %d slices, %d groups wrong' % (prop, res['verdict'], res.get('stride_sites', 0), len(outs), len(bounds) ** 2, len(bad)))
+    ev['coverage'] = dict(queries=1, results=[res], native_scenarios=len(outs) * len(bounds) ** 2, native_scenarios_failing=len(bad), check='slice_window_then_stride')
+    ev['wall_s'] = round(time.time() - t0, 1)
+    return ev
+
+
 def run_pool_buffers(prop, tier, seed):
     t0 = time.time()
     ev = dict(engine='M', violations=[], known_hits=[], problems=[], coverage={})
